@@ -109,7 +109,8 @@ async def scenario(cap, ws, errs, acts, drains, mode, trace=None, stats=None):
                         if mode == 0:
                             raise sched.Prune()
                         stats['other_cancels'] += 1
-                    what = f'cancel{i}:' + ('queued' if queued else _kind(tasks[i], arrived[i], inside[i]))
+                    if trace is not None:
+                        what = f'cancel{i}:' + ('queued' if queued else _kind(tasks[i], arrived[i], inside[i]))
                     cancelled[i] = True
                     tasks[i].cancel()
             d = sched.concretize(drains[s], 0, 2)
